@@ -780,8 +780,12 @@ func h5Gauss(env *Env, c *H5Cfg, sh *h5Shared) {
 		tol := 1 + target*D + 1e-6*target
 		if math.Abs(sum-target) > tol {
 			sig := "gaussian/volume"
-			if float64(rep)-mu <= sigma && sigma <= 3*float64(f) {
-				sig = "gaussian/volume/peak-within-1sd-of-window-end+sd-le-3-ticks"
+			// known finding F6, identified by its input class and its exact effect: the last tick of the window
+			// [repeat-frequency, repeat] holds a sizeable share of the bell's mass inside the window, and the total
+			// is what leaving that tick out of the normalisation yields (volume * sum(f*pdf) / (CDF(repeat-f)-CDF(0)))
+			if short := ncdf(float64(rep-f), mu, sigma) - ncdf(0, mu, sigma); short > 0 && (mass-short)/mass > 0.15 &&
+				math.Abs(sum-target*riemann/short) <= 2+1e-6*target {
+				sig = "gaussian/volume/last-tick-mass-over-15pct+total-matches-normalisation-without-last-tick"
 			}
 			env.Violate("C11", "window-volume", sig, "window at +%s: requested %.0f, configured volume %.2f (weight factor %.3f); allowed deviation %.2f (discretisation %.4f) (%s)",
 				dur(ws), sum, target, weight, tol, D, (h5{}).Describe(c))
